@@ -349,7 +349,8 @@ def run(sc, choices=None):
         # coarse phase of the loop thread when the asynchronous close() started
         fseq = fires[0][0]
         tr0 = out["runs"][0].trace
-        opened = [t for t in tr0 if t[2] == "on_open" and t[0] < fseq]
+        opened = [t for t in tr0 if t[2] == "on_open" and t[0] < fseq] or \
+                 [e for e in w.k.log if e[0] < fseq and e[3] == "sel_register"]
         ended = [e for e in w.k.log if e[0] < fseq and e[3] in ("deliver_eof", "deliver_reset")]
         closed_cb = [t for t in tr0 if t[2] in ("on_close", "on_error") and t[0] < fseq]
         if closed_cb or ended:
